@@ -1,0 +1,13 @@
+//go:build verif
+
+package querylog
+
+// Contracts for govc (see /verif/DESIGN.md).  This file is comment-only and is compiled only with -tags=verif.
+
+//@ func AnonymizeIP(ip net.IP)
+//@   property C08
+//@   modifies elems(ip)
+//@   ensures v4: len(ip) == 4 ==> ip[2] == 0 && ip[3] == 0 && ip[0] == old(ip[0]) && ip[1] == old(ip[1])
+//@   ensures v4in6: old(is4in6(ip)) ==> ip[14] == 0 && ip[15] == 0 && (forall k int :: 0 <= k && k < 14 ==> ip[k] == old(ip[k]))
+//@   ensures v6: len(ip) == 16 && !old(is4in6(ip)) ==> (forall k int :: 6 <= k && k < 16 ==> ip[k] == 0) && (forall k int :: 0 <= k && k < 6 ==> ip[k] == old(ip[k]))
+//@   ensures other: len(ip) != 4 && len(ip) != 16 ==> (forall k int :: 0 <= k && k < len(ip) ==> ip[k] == old(ip[k]))
